@@ -50,7 +50,10 @@ def project(grid):
     inv = {frozenset(v): k for k, v in KEYS.items()}
     out = []
     for key, lst in grid._metrics.items():
-        out.append([inv[frozenset(key)], [str(m.name) for m in lst]])
+        names = [str(m.name) for m in lst[:16]]
+        if len(lst) > 16:
+            names.append(f"...and {len(lst) - 16} more")       # a registry that grew without bound is reported, not copied
+        out.append([inv[frozenset(key)], names])
     return sorted(out)
 
 
@@ -132,6 +135,7 @@ def run(ctx):
     allcalls = calls()
     pool_list = [[v, POOL[v][0], POOL[v][1]] for v in sorted(POOL)]
     # breadth-first over the implementation's registry states
+    truncated, stopped_at = False, None
     frontier = {(): []}  # state -> shortest history
     seen = {(): []}
     recs = []
@@ -143,7 +147,14 @@ def run(ctx):
                 jobs.append((hist, dict(c)))
                 if d == 0:
                     jobs.append((hist, dict(c, ctor=True)))
-        results = ctx.pmap(_job, jobs, chunksize=64)
+        # in portions, so that an implementation whose calls hang or fail is reported without finishing the level
+        results = []
+        for lo in range(0, len(jobs), 1600):
+            part = ctx.pmap(_job, jobs[lo:lo + 1600], chunksize=25, limit=10.0)
+            results += part
+            if sum(1 for r in part if r["out"]["k"] == "error") > 10:
+                jobs = jobs[:len(results)]
+                break
         new = {}
         for (hist, c), r in zip(jobs, results):
             cid += 1
@@ -155,12 +166,23 @@ def run(ctx):
                 seen[sk] = hist + [c]
                 new[sk] = hist + [c]
         frontier = new
-        if not thorough and d == depth - 2:
-            # quick: the last level from a sample of the new states
+        cap = 2000 if thorough else (40 if d == depth - 2 else 400)
+        if len(frontier) > cap:
+            # the next level is explored from a sample of the new states (always the case for the last quick level;
+            # otherwise only when an implementation makes the registry grow without bound)
             keys = sorted(frontier)
-            random.Random(ctx.seed).shuffle(keys)
-            frontier = {k: frontier[k] for k in keys[:40]}
+            random.Random(ctx.seed + d).shuffle(keys)
+            frontier = {k: frontier[k] for k in keys[:cap]}
+            truncated = True
+        # a transition the specification rejects ends the exploration: states behind it are not states of the model
+        level = [r for r in recs if r["history_len"] == d + 1]
+        if level and ctx.validate("C16Trace", level, jvms=8, chunk=2500):
+            stopped_at = d + 1
+            break
+    ctx.traces = 0   # the per-level validations above are repeated on the whole set below
     bad = ctx.validate("C16Trace", recs, jvms=16 if thorough else 8, chunk=2500)
+    ctx.extra["exploration_stopped_after_rejected_transition_at_depth"] = stopped_at
+    ctx.extra["frontier_sampled"] = truncated
     for r in recs:
         ctx.nontrivial.add((state_key(r["pre"]), r["call"]["k"], tuple(r["call"]["vs"]), r["call"]["ow"], r["call"]["ctor"]))
         if r["id"] in bad:
